@@ -3,7 +3,7 @@
    maps, bookkeeping, table keyed), Bits.v, Grouping.v; this file adds statements that combine them. *)
 From Coq Require Import ZArith List Bool Lia Permutation.
 From FV Require Import Lib.RustInt C18.Model.
-From FV Require Export C18.GkProofs C18.Runs C18.GkProofs2 C18.Bits C18.Grouping C18.Partition.
+From FV Require Export C18.GkProofs C18.Runs C18.GkProofs2 C18.Bits C18.Grouping C18.Partition C18.Codec.
 Import ListNotations.
 Open Scope Z_scope.
 
